@@ -83,7 +83,7 @@ ENCODER_COUNTERS = ["enc|DerInteger", "enc|DerInteger_tagged", "enc|DerObjectId"
 
 def plan(tier, seed):
     q = tier == "quick"
-    B = 40 if q else 240
+    B = 40 if q else 300
     specs = []
     # the heaviest first
     for i in range(2 if q else 4):
